@@ -544,10 +544,14 @@ class Gen:
             thr = [1.0 / v, "ops/s"]
             self.features.add("target-interval")
         elif r < 0.35:
-            v, u = rng.choice([10, 500]), rng.choice(["docs/s", "pages/s", "MB/s"])
-            spec["target-throughput"] = written["target-throughput"] = "%d %s" % (v, u)
+            # "<number> <unit>/s" (docs/track.rst, target-throughput): whole and fractional numbers, also the ".5" spelling
+            v, u = rng.choice([10, 500, 2.5, 0.5, 0.25, 1.75]), rng.choice(["docs/s", "pages/s", "MB/s", "ops/s"])
+            text = ("%d" % v) if float(v).is_integer() else (("%s" % v).lstrip("0") if rng.random() < 0.3 else "%s" % v)
+            spec["target-throughput"] = written["target-throughput"] = "%s %s" % (text, u)
             thr = [float(v), u]
             self.features.add("target-throughput-unit")
+            if not float(v).is_integer():
+                self.features.add("target-throughput-fractional-string")
         sched = None
         if rng.random() < 0.2:
             sched = spec["schedule"] = written["schedule"] = rng.choice(["deterministic", "poisson", "my-sched"])
